@@ -139,8 +139,8 @@ fn process_z80r_block<H: Host>(emulator: &mut Emulator<H>, block_data: &[u8]) {
     // IFF2
     emulator.cpu.regs.set_iff2(block_data[27] > 0);
 
-    // IM
-    emulator.cpu.set_im(block_data[28]);
+    // IM (only 0..=2 exist, upper bits are ignored the same way SNA loader does)
+    emulator.cpu.set_im((block_data[28] & 0x03).min(2));
 
     // dwCyclesStart
     emulator.controller.frame_clocks = u32::from_le_bytes([
